@@ -736,6 +736,16 @@ pub fn run_c17(tier: Tier, rep: &mut Report) {
     p255[0] = 0x80;
     scalars.push(p255);
     scalars.push([0xff; 32]);
+    // around half the group order (the low-S threshold), and secrets with zero leading bytes
+    let half = rc::half_n();
+    scalars.extend([rc::be_sub(&half, &be(1)), half, rc::be_add_small(&half, 1), rc::be_add_small(&half, 2)]);
+    for z in [1usize, 2, 8, 16, 31] {
+        let mut a = keccak256(&[z as u8]);
+        for b in a.iter_mut().take(z) {
+            *b = 0;
+        }
+        scalars.push(a);
+    }
     scalars.extend(id_alphabet(tier));
     for s in &scalars {
         n += 1;
@@ -767,6 +777,9 @@ pub fn run_c17(tier: Tier, rep: &mut Report) {
                 // a record signed with the imported key verifies under that public key
                 match real::guard(|| Enr::<CombinedKey>::builder().tcp4(1).build(&k)) {
                     Ok(Ok(e)) => {
+                        if k.encode() != s.to_vec() || k.public().encode() != want_pub.to_vec() {
+                            bad("secp256k1 export / public key change after the key has signed a record", String::new(), s);
+                        }
                         let obs = real::observe(&e);
                         let pairs: crate::model::Pairs = obs.pairs.iter().cloned().collect();
                         let content = crate::model::content_bytes(&pairs, obs.seq);
